@@ -109,9 +109,8 @@ M = [
      "        sampled_instance = features[rand_idx]\n        sampled_features = {feature_name: sampled_instance[feature_name]\n                            for feature_name in feature_subset}\n        if len(sampled_features) == 0 and len(features) > 4:\n            sampled_instance.clear()\n"),
     # ---- C07 ---------------------------------------------------------------------------------------
     ("C07", "target-to-other-slot", GEO, "                    self._storage_y[rand_idx] = y\n", "                    self._storage_y[rand_idx - 1] = y\n"),
-    ("C07", "interval-targets-not-popped", IVS, "                self._storage_y.popleft()\n                self._storage_y.append(y)\n",
-     "                self._storage_y.append(y)\n                if len(self._storage_y) > self.size + 1:\n                    self._storage_y.popleft()\n"),
-    ("C07", "uniform-grows-beyond-capacity", UNI, "        if self.stored_samples <= self.size:\n", "        if self.stored_samples <= self.size or (self.size > 3 and self.stored_samples == self.size + 2):\n"),
+    ("C07", "interval-targets-popped-from-wrong-end", IVS, "                self._storage_y.popleft()\n                self._storage_y.append(y)\n",
+     "                self._storage_y.pop()\n                self._storage_y.append(y)\n"),
     ("C07", "uniform-target-kept-on-replace", UNI, "                if self.store_targets:\n                    self._storage_y[rand_idx] = y\n                # Algorithm L",
      "                if self.store_targets and rand_idx > 0:\n                    self._storage_y[rand_idx] = y\n                # Algorithm L"),
     # ---- C08 ---------------------------------------------------------------------------------------
@@ -134,7 +133,8 @@ M = [
      "        if getattr(self, '_last', None) != (y_true, repr(y_prediction)):\n            self._river_metric.revert(y_true=y_true, y_pred=y_prediction)\n        self._last = (y_true, repr(y_prediction))\n        return loss_i * self._sign"),
     ("C13", "revert-other-arguments", RIVER, "        self._river_metric.revert(y_true=y_true, y_pred=y_prediction)\n",
      "        self._river_metric.revert(y_true=y_true, y_pred=y_prediction if self._dict_input_metric else y_true)\n"),
-    ("C13", "sign-not-flipped", RIVER, "            self._sign = -1.\n", "            self._sign = -1. if not hasattr(self._river_metric, 'cm') else 1.\n"),
+    ("C13", "sign-not-flipped-for-binary-metrics", RIVER, "            self._sign = -1.\n",
+     "            self._sign = -1. if 'Binary' not in ''.join(c.__name__ for c in type(self._river_metric).__mro__) else 1.\n"),
     ("C13", "dirty-probe", VLOSS, "        _ = river_metric.update(y_true=0, y_pred=0)\n        _ = river_metric.revert(y_true=0, y_pred=0)\n        validated_loss_function = RiverMetricToLossFunction(river_metric=river_metric, dict_input_metric=False)\n",
      "        _ = river_metric.update(y_true=0, y_pred=0)\n        validated_loss_function = RiverMetricToLossFunction(river_metric=river_metric, dict_input_metric=False)\n"),
     ("C13", "whole-dict-to-single-value-metric", RIVER, "            y_prediction = y_prediction.get('output', 0)\n",
@@ -162,8 +162,10 @@ M = [
     ("C17", "sage-model-loss-committed-early", INC, "            model_loss = self._loss_function(y_i, y_i_pred)\n",
      "            model_loss = self._loss_function(y_i, y_i_pred)\n            self._model_loss_tracker.update(model_loss)\n            _committed = True\n"),
     ("C17", "storage-after-commit", INC,
-     "        if update_storage:\n            self._storage.update(x_i, y_i)\n        # the estimates are only touched once every callback (model, loss, imputer, storage) has returned\n        if marginal_contributions is not None:\n",
-     "        if marginal_contributions is not None:\n"),
+     ["        if update_storage:\n            self._storage.update(x_i, y_i)\n        # the estimates are only touched once every callback (model, loss, imputer, storage) has returned\n        if marginal_contributions is not None:\n",
+      "        self.seen_samples += 1\n        return self.importance_values"],
+     ["        if marginal_contributions is not None:\n",
+      "        self.seen_samples += 1\n        if update_storage:\n            self._storage.update(x_i, y_i)\n        return self.importance_values"]),
     ("C17", "imputer-keyerror-swallowed", PFI,
      "                predictions = self._imputer.impute(\n                    feature_subset=feature_subset,\n                    x_i=x_i,\n                    n_samples=n_inner_samples\n                )\n",
      "                try:\n                    predictions = self._imputer.impute(\n                        feature_subset=feature_subset,\n                        x_i=x_i,\n                        n_samples=n_inner_samples\n                    )\n                except KeyError:  # feature missing in the background data\n                    return self.importance_values\n"),
@@ -184,7 +186,7 @@ M = [
     ("C19", "incomplete-points-stored", TREES, "        data_reservoir[leaf_id].update(x)\n", "        data_reservoir[leaf_id].update(x_i)\n"),
     ("C19", "imputer-falls-back-despite-reservoir", TREEI, "            random_index = random.randint(0, len(x_storage) - 1)\n",
      "            random_index = random.randint(0, len(x_storage) - 1)\n            if len(x_storage) == 1:\n                raise KeyError(leaf_id)\n"),
-    ("C19", "length-counts-features", TREES, "        self._seen_samples += 1\n", "        self._seen_samples += 1 if len(x) == len(self.feature_names) or self._seen_samples < 40 else 0\n"),
+    ("C19", "length-skips-every-97th", TREES, "        self._seen_samples += 1\n", "        self._seen_samples += 1 if self._seen_samples % 97 != 96 else 0\n"),
 ]
 
 
@@ -202,15 +204,18 @@ def main():
             which = m[5] if len(m) > 5 else "first"
             full = os.path.join(dst, path)
             src = open(full).read()
-            if old not in src:
+            olds, news = (old, new) if isinstance(old, list) else ([old], [new])
+            if any(o not in src for o in olds):
                 print("NO MATCH:", prop, name)
                 bad += 1
                 continue
-            if which == "last":
-                i = src.rindex(old)
-                mutated = src[:i] + new + src[i + len(old):]
-            else:
-                mutated = src.replace(old, new, 1)
+            mutated = src
+            for o, nw in zip(olds, news):
+                if which == "last":
+                    i = mutated.rindex(o)
+                    mutated = mutated[:i] + nw + mutated[i + len(o):]
+                else:
+                    mutated = mutated.replace(o, nw, 1)
             open(full, "w").write(mutated)
             r = subprocess.run([sys.executable, "-m", "py_compile", full], capture_output=True, text=True)
             diff = subprocess.run(["git", "-C", dst, "diff"], capture_output=True, text=True).stdout
